@@ -195,7 +195,7 @@ def main():
             rc, out = sh("cargo test --workspace --no-fail-fast --offline 2>&1 | grep -E '^test result|error(\\[|:)' ", cwd=f"{SCR}/repo", env=env)
             failed = "FAILED" in out or "error" in out
             r["suite"] = "FAILS" if failed else "passes"
-        rc, out = sh("cargo build --release 2>&1 | tail -3", cwd=f"{SCR}/harness", env={"CARGO_NET_OFFLINE": "true"})
+        rc, out = sh("cargo build --release 2>&1 | tail -3; CARGO_PROFILE_RELEASE_DEBUG_ASSERTIONS=true cargo build --release --target-dir " + SCR + "/target-harness/da 2>&1 | tail -1", cwd=f"{SCR}/harness", env={"CARGO_NET_OFFLINE": "true"})
         if "error" in out:
             r["build"] = out[-400:]
             results[mid] = r
